@@ -166,6 +166,17 @@ impl Graph {
         for p in &self.providers { for (k, s) in p { if k == c { return Some(s); } } }
         None
     }
+    /// COVERAGE ONLY: would a walk that leaves a super-type list at the first already visited type (java/lang/Object
+    /// not counted) fail to reach `target` from `start`? (stack order or recursive pre-order)
+    pub fn missed_by_early_stop(&self, start: &str, target: &str) -> bool {
+        let sup = |c: &str| -> Vec<&str> { self.supers(c).map(|v| v.iter().map(|s| s.as_str()).filter(|s| *s != OBJECT).collect()).unwrap_or_default() };
+        let mut seen: Vec<&str> = vec![]; let mut todo = vec![start];
+        while let Some(x) = todo.pop() { for p in sup(x) { if seen.contains(&p) { break; } seen.push(p); todo.push(p); } }
+        let a = !seen.contains(&target);
+        fn rec<'x>(sup: &dyn Fn(&str) -> Vec<&'x str>, x: &str, seen: &mut Vec<&'x str>, d: usize) { if d > 64 { return; } for p in sup(x) { if seen.contains(&p) { break; } seen.push(p); rec(sup, p, seen, d + 1); } }
+        let mut seen2: Vec<&str> = vec![]; rec(&sup, start, &mut seen2, 0);
+        a || !seen2.contains(&target)
+    }
     pub fn map_names(&self, f: &dyn Fn(&str) -> String) -> Graph {
         Graph { providers: self.providers.iter().map(|p| p.iter().map(|(c, s)| {
             let mut t: Vec<String> = vec![];
@@ -225,6 +236,10 @@ pub struct Effect {
     pub cal_via_tableless: bool,
     /// the naming entry belongs to a class that only a LIBRARY jar declares
     pub named_in_library: bool,
+    /// named name an ANCESTOR's entry (same intermediary name + descriptor) gives the delegate, seen from the bridge's class
+    pub delegate_inherited_name: Option<String>,
+    /// coverage fact: the naming super type sits behind an already visited super type (redundant interface / diamond)
+    pub naming_type_behind_visited: bool,
     pub bridge: (String, String, String),
 }
 
@@ -248,9 +263,11 @@ pub fn effects(sc: &Scenario, cands: &[Candidate], cal_stop: bool, nam_stop: boo
         let nh = nam.method(&g_int, &b_class, &b_name, &b_desc, nam_stop);
         let full = nam.method(&g_int, &b_class, &b_name, &b_desc, false);
         let named_in_library = full.as_ref().is_some_and(|h| g_int.providers.iter().skip(1).any(|p| p.iter().any(|(c, _)| *c == h.declaring)) && !g_int.providers[0].iter().any(|(c, _)| *c == h.declaring));
+        let naming_type_behind_visited = full.as_ref().is_some_and(|h| h.depth >= 1 && g_int.missed_by_early_stop(&b_class, &h.declaring));
         let named_hit = full.map(|h| (h.depth, h.via_tableless));
         let named = nh.map(|h| h.name).unwrap_or_else(|| b_name.clone());
-        out.push(Effect { class: b_class, key: (s_name, s_desc), named, expect: c.expect, named_hit, cal_via_tableless: via, named_in_library, bridge: (c.class.clone(), c.name.clone(), c.desc.clone()) });
+        let delegate_inherited_name = nam.method(&g_int, &b_class, &s_name, &s_desc, false).filter(|h| h.depth >= 1).map(|h| h.name);
+        out.push(Effect { class: b_class, key: (s_name, s_desc), named, expect: c.expect, named_hit, cal_via_tableless: via, named_in_library, delegate_inherited_name, naming_type_behind_visited, bridge: (c.class.clone(), c.name.clone(), c.desc.clone()) });
     }
     out
 }
